@@ -183,6 +183,22 @@ func (e *clEngine) swap() {
 	o := e.o
 	ogi := e.r.Intn(2) == 0
 	zfo := e.r.Intn(2) == 0
+	class := e.swapClass
+	e.swapClass = ""
+	var given *big.Int
+	if ov := e.swapOverride; ov != nil { // scripted swap (directed sequences): kind, direction and (optionally) amount are given
+		e.swapOverride = nil
+		ogi, zfo, class, given = ov.ogi, ov.zfo, ov.class, ov.amt
+	}
+	e.lastSwap = swapRes{}
+	if class == "" {
+		switch e.r.Intn(16) {
+		case 0, 1:
+			class = "land"
+		case 2:
+			class = "limit"
+		}
+	}
 	p := e.pool()
 	inDenom, outDenom := clDenom0, clDenom1
 	if !zfo {
@@ -208,6 +224,26 @@ func (e *clEngine) swap() {
 		}
 	default:
 		amt = e.randAmount()
+	}
+	switch class {
+	case "land": // the amount that brings the price EXACTLY onto the n-th initialised tick ahead (computed with the real math), +-1 unit
+		if a := e.landingAmount(ogi, zfo, inDenom); a != nil {
+			amt = a
+			o.Count("swap.class.land")
+		}
+	case "limit": // more than the pool can absorb: the swap stops at the price limit (partial fill) when liquidity reaches the min/max tick
+		if ogi {
+			amt = new(big.Int).Mul(new(big.Int).Add(poolIn, pow10(6+e.r.Intn(30))), big.NewInt(int64(2+e.r.Intn(1000))))
+		} else {
+			amt = new(big.Int).Add(poolOut, big.NewInt(int64(e.r.Intn(3))))
+			if e.r.Intn(2) == 0 {
+				amt.Mul(amt, big.NewInt(int64(2+e.r.Intn(9))))
+			}
+		}
+		o.Count("swap.class.limit")
+	case "given":
+		amt = new(big.Int).Set(given)
+		o.Count("swap.class.scripted-amount")
 	}
 	if amt.Sign() <= 0 {
 		amt = big.NewInt(1)
@@ -274,6 +310,9 @@ func (e *clEngine) swap() {
 		o.Emit(line, "err", true)
 		o.Count("swap.err")
 		if msg := err.Error(); true {
+			if i := strings.IndexAny(msg, "(0123456789"); i > 20 { // amounts / ids are not part of the class
+				msg = msg[:i]
+			}
 			if len(msg) > 70 {
 				msg = msg[:70]
 			}
@@ -299,6 +338,9 @@ func (e *clEngine) swap() {
 		e.feesPaid[1].Add(e.feesPaid[1], fee)
 		e.addDust(1, new(big.Int).Mul(big.NewInt(int64(len(ahead)+3)), swapUnit))
 	}
+	e.lastSwap = swapRes{ok: true, ogi: ogi, zfo: zfo, paid: paid, got: got}
+	// --- the integer amounts against the EXACT curve between the start and the end price over the ticks actually traversed ---
+	e.oracleSwapEndpoints(line, class, ogi, zfo, amt, paid, got, sp0, liq0, ahead)
 	// positions in range during this swap (for the never-in-range check)
 	e.markInRange(sp0)
 	// response agrees with balances
@@ -324,31 +366,328 @@ func (e *clEngine) swap() {
 	if ok {
 		// bounded rounding: every step rounds the charged side up and the paid side down by less than one unit, and
 		// the totals once more; a unit of one token is worth 1/price units of the other, so the bound is taken on the
-		// curve itself: the result must lie between the ideal for the amount and the ideal for the amount shifted by S units.
-		S := big.NewInt(int64(2*steps + 4))
-		slack := new(big.Rat).SetInt(S)
+		// curve itself: the result must lie between the ideal for the amount and the ideal for the amount shifted by the
+		// slack: Sin units of the in-token, Sout units of the out-token, each 2*steps+4 units plus
+		//  * the spread charge of a step that reaches its target is in x QuoRoundUp(spf, 1-spf), a ratio rounded up at 18
+		//    decimals: up to in x 10^-18 more than exact (whole units once amounts reach 10^18: 18-decimals assets);
+		//  * the sqrt price is a 36-decimal number and every step rounds the next price by a few units of 10^-36 in the pool's
+		//    favour: one such quantum is worth L x 10^-36 units of token1 and L x 10^-36 / sqrtP^2 units of token0 (whole units
+		//    only for liquidity beyond ~10^30, or ~10^24 at the minimum price; nothing for ordinary magnitudes).
+		sp1 := e.pool().GetCurrentSqrtPrice().BigInt()
+		Lmax := new(big.Int).Set(liq0)
+		for _, t := range ahead {
+			if zfo && t.sp.Cmp(sp1) < 0 || !zfo && t.sp.Cmp(sp1) > 0 {
+				break
+			}
+			Lmax.Add(Lmax, new(big.Int).Abs(t.net))
+		}
+		spLo := sp0
+		if sp1.Cmp(spLo) < 0 {
+			spLo = sp1
+		}
+		q1 := new(big.Rat).SetFrac(new(big.Int).Mul(Lmax, big.NewInt(int64(4*(steps+1)))), pow10(18+36)) // token1 units
+		q0 := new(big.Rat).Set(q1)
+		if spLo.Sign() > 0 {
+			inv := new(big.Rat).SetFrac(p36r, spLo)
+			q0.Mul(q0, inv).Mul(q0, inv)
+		}
+		qIn, qOut := ratCeil(q0), ratCeil(q1)
+		if !zfo {
+			qIn, qOut = qOut, qIn
+		}
+		Sin := big.NewInt(int64(2*steps + 4))
+		Sout := big.NewInt(int64(2*steps + 4))
+		if !e.spf.IsZero() {
+			Sin.Add(Sin, new(big.Int).Quo(paid, pow10(18)))
+			Sin.Add(Sin, big.NewInt(1))
+		}
+		if qIn.Cmp(big.NewInt(1)) > 0 || qOut.Cmp(big.NewInt(1)) > 0 {
+			o.Count("swap.sqrt-price-quantum-worth-whole-units")
+		}
+		Sin.Add(Sin, qIn)
+		Sout.Add(Sout, qOut)
 		if ogi {
 			if new(big.Rat).SetInt(got).Cmp(ideal) > 0 {
-				o.Fail("curve:out-above-ideal", fmt.Sprintf("%s paid %s got %s ideal %s", line, paid, got, ideal.FloatString(6)))
+				o.Fail("curve:out-above-ideal", fmt.Sprintf("%s paid %s got %s ideal %s | %s", line, paid, got, ideal.FloatString(6), e.replay()))
 			}
-			if lessIn := new(big.Int).Sub(paid, S); lessIn.Sign() > 0 {
+			if lessIn := new(big.Int).Sub(paid, Sin); lessIn.Sign() > 0 {
 				lo, _, ok2 := idealWalk(true, zfo, e.spf.BigInt(), sp0, liq0, ahead, lessIn)
-				if ok2 && new(big.Rat).Add(new(big.Rat).SetInt(got), slack).Cmp(lo) < 0 {
-					o.Fail("curve:out-far-below-ideal", fmt.Sprintf("%s paid %s got %s ideal %s ideal(in-%s) %s steps %d", line, paid, got, ideal.FloatString(6), S, lo.FloatString(6), steps))
+				if ok2 && new(big.Rat).SetInt(new(big.Int).Add(got, Sout)).Cmp(lo) < 0 {
+					o.Fail("curve:out-far-below-ideal", fmt.Sprintf("%s paid %s got %s ideal %s ideal(in-%s) %s slack out %s steps %d liquidity %s sqrt price %s -> %s | %s", line, paid, got, ideal.FloatString(6), Sin, lo.FloatString(6), Sout, steps, liq0, sp0, sp1, e.replay()))
 				}
 			}
 		} else {
 			if new(big.Rat).SetInt(paid).Cmp(ideal) < 0 {
-				o.Fail("curve:in-below-ideal", fmt.Sprintf("%s paid %s got %s ideal %s", line, paid, got, ideal.FloatString(6)))
+				o.Fail("curve:in-below-ideal", fmt.Sprintf("%s paid %s got %s ideal %s | %s", line, paid, got, ideal.FloatString(6), e.replay()))
 			}
-			hi, _, ok2 := idealWalk(false, zfo, e.spf.BigInt(), sp0, liq0, ahead, new(big.Int).Add(got, S))
-			if ok2 && new(big.Rat).SetInt(paid).Cmp(new(big.Rat).Add(hi, slack)) > 0 {
-				o.Fail("curve:in-far-above-ideal", fmt.Sprintf("%s paid %s got %s ideal %s ideal(out+%s) %s steps %d", line, paid, got, ideal.FloatString(6), S, hi.FloatString(6), steps))
+			hi, _, ok2 := idealWalk(false, zfo, e.spf.BigInt(), sp0, liq0, ahead, new(big.Int).Add(got, Sout))
+			if ok2 && new(big.Rat).SetInt(paid).Cmp(new(big.Rat).Add(hi, new(big.Rat).SetInt(Sin))) > 0 {
+				o.Fail("curve:in-far-above-ideal", fmt.Sprintf("%s paid %s got %s ideal %s ideal(out+%s) %s slack in %s steps %d liquidity %s sqrt price %s -> %s | %s", line, paid, got, ideal.FloatString(6), Sout, hi.FloatString(6), Sin, steps, liq0, sp0, sp1, e.replay()))
 			}
 		}
 	} else {
 		o.Count("swap.ideal-ran-out-of-liquidity")
 	}
+}
+
+// swapRes: outcome of the last executed swap (directed sequences swap the proceeds back).
+type swapRes struct {
+	ok        bool
+	ogi, zfo  bool
+	paid, got *big.Int
+}
+
+type swapOv struct {
+	ogi, zfo bool
+	class    string
+	amt      *big.Int
+}
+
+// landingAmount: the specified amount of a swap that ends EXACTLY on the n-th initialised tick ahead (n = 1..3), computed
+// with the real math (ComputeMaxInAmtGivenMaxTicksCrossed / CalcAmount0Delta / CalcAmount1Delta), sometimes +-1 unit.
+func (e *clEngine) landingAmount(ogi, zfo bool, inDenom string) *big.Int {
+	k := e.h.App.ConcentratedLiquidityKeeper
+	p := e.pool()
+	n := 1 + e.r.Intn(3)
+	var amt *big.Int
+	how := "maxin"
+	if e.r.Intn(3) == 0 || !ogi && e.r.Intn(2) == 0 { // first tick ahead whose price differs from the current one, by the delta functions
+		how = "delta"
+		sp0 := p.GetCurrentSqrtPrice()
+		liq := p.GetLiquidity()
+		for _, t := range e.ticksAhead(zfo) {
+			if t.sp.Cmp(sp0.BigInt()) == 0 {
+				if zfo {
+					liq = liq.Sub(sd(t.net))
+				} else {
+					liq = liq.Add(sd(t.net))
+				}
+				continue
+			}
+			if !liq.IsPositive() {
+				break
+			}
+			catch(func() {
+				if ogi {
+					var in osmomath.Dec
+					if zfo {
+						in = clmath.CalcAmount0Delta(liq, bd(t.sp), sp0, true).DecRoundUp().Ceil()
+					} else {
+						in = clmath.CalcAmount1Delta(liq, bd(t.sp), sp0, true).DecRoundUp().Ceil()
+					}
+					// plus the spread charge in * spf / (1 - spf), rounded up
+					tot := new(big.Rat).Quo(new(big.Rat).SetInt(in.TruncateInt().BigInt()), new(big.Rat).Sub(big.NewRat(1, 1), new(big.Rat).SetFrac(e.spf.BigInt(), p18r)))
+					amt = ratCeil(tot)
+				} else {
+					if zfo {
+						amt = clmath.CalcAmount1Delta(liq, bd(t.sp), sp0, false).Dec().TruncateInt().BigInt()
+					} else {
+						amt = clmath.CalcAmount0Delta(liq, bd(t.sp), sp0, false).Dec().TruncateInt().BigInt()
+					}
+				}
+			})
+			break
+		}
+	} else {
+		var in, out sdk.Coin
+		var err error
+		if !catch(func() { in, out, err = k.ComputeMaxInAmtGivenMaxTicksCrossed(e.ctx(), e.poolId, inDenom, uint64(n)) }) || err != nil {
+			return nil
+		}
+		if ogi {
+			amt = in.Amount.BigInt()
+		} else {
+			amt = out.Amount.BigInt()
+		}
+	}
+	if amt == nil || amt.Sign() <= 0 {
+		return nil
+	}
+	amt = new(big.Int).Set(amt)
+	switch e.r.Intn(5) {
+	case 0:
+		amt.Add(amt, big.NewInt(1))
+		how += "+1"
+	case 1:
+		if amt.Cmp(big.NewInt(1)) > 0 {
+			amt.Sub(amt, big.NewInt(1))
+			how += "-1"
+		}
+	}
+	e.o.Count("swap.land." + how)
+	return amt
+}
+
+// oracleSwapEndpoints (property C03, keys swap:*): the constant-liquidity curve walked EXACTLY (big.Rat) from the swap's start
+// price to its end price through the initialised ticks in between, with the liquidity of every bucket taken from the ticks'
+// net liquidity.  One-sided, zero tolerance, for every executed swap of the four kinds incl. partial fills (swap stopped at
+// the price limit): what the trader was charged >= exact in-amount / (1 - spread factor), what he was paid <= exact out-amount.
+// (The comparison with the ideal FOR THE AMOUNT, both sides, stays with idealWalk below.)
+func (e *clEngine) oracleSwapEndpoints(line, class string, ogi, zfo bool, amt, paid, got, sp0, liq0 *big.Int, ahead []tickNet) {
+	e.oracleSwapEndpointsAt(line, class, ogi, zfo, amt, paid, got, sp0, e.pool().GetCurrentSqrtPrice().BigInt(), liq0, ahead)
+}
+
+// probeLimit: a swap larger than the pool can absorb, executed on a DISCARDED branch of the current state (the history and
+// the model are not touched) and judged by the same exact-curve oracle: partial fills in every state the history visits.
+func (e *clEngine) probeLimit(ogi, zfo bool) {
+	k := e.h.App.ConcentratedLiquidityKeeper
+	p := e.pool()
+	inDenom, outDenom := clDenom0, clDenom1
+	if !zfo {
+		inDenom, outDenom = clDenom1, clDenom0
+	}
+	ahead := e.ticksAhead(zfo)
+	if len(ahead) == 0 {
+		return
+	}
+	if last := ahead[len(ahead)-1].tick; zfo && last != cltypes.MinInitializedTick || !zfo && last != cltypes.MaxTick {
+		return // liquidity does not reach the limit tick: the swap would run out of ticks
+	}
+	var amt *big.Int
+	if ogi {
+		amt = new(big.Int).Mul(new(big.Int).Add(e.bal(p.GetAddress(), inDenom), pow10(6+e.r.Intn(30))), big.NewInt(int64(2+e.r.Intn(1000))))
+	} else {
+		amt = new(big.Int).Add(e.bal(p.GetAddress(), outDenom), big.NewInt(int64(e.r.Intn(3))))
+	}
+	trader := e.accs[e.r.Intn(3)]
+	if e.bal(trader, inDenom).Cmp(pow10(60)) < 0 {
+		e.h.FundAcc(trader, sdk.NewCoins(sdk.NewCoin(inDenom, osmomath.NewIntFromBigInt(pow10(62)))))
+	}
+	sp0 := p.GetCurrentSqrtPrice().BigInt()
+	liq0 := p.GetLiquidity().BigInt()
+	cctx, _ := e.h.Ctx.CacheContext()
+	balOf := func(a sdk.AccAddress, d string) *big.Int { return e.h.App.BankKeeper.GetBalance(cctx, a, d).Amount.BigInt() }
+	tIn, tOut := balOf(trader, inDenom), balOf(trader, outDenom)
+	var err error
+	ok := catch(func() {
+		if ogi {
+			_, err = k.SwapExactAmountIn(cctx, trader, p, sdk.NewCoin(inDenom, osmomath.NewIntFromBigInt(amt)), outDenom, osmomath.ZeroInt(), e.spf)
+		} else {
+			_, err = k.SwapExactAmountOut(cctx, trader, p, inDenom, osmomath.NewIntFromBigInt(pow2(250)), sdk.NewCoin(outDenom, osmomath.NewIntFromBigInt(amt)), e.spf)
+		}
+	})
+	if !ok || err != nil {
+		e.o.Count("probe.limit-err")
+		return
+	}
+	e.o.Count("probe.limit-ok")
+	paid := new(big.Int).Sub(tIn, balOf(trader, inDenom))
+	got := new(big.Int).Sub(balOf(trader, outDenom), tOut)
+	p1, err := k.GetConcentratedPoolById(cctx, e.poolId)
+	if err != nil {
+		return
+	}
+	line := fmt.Sprintf("clp swap %s %s %s (probe: executed on a discarded branch of the state after the replayed ops)", b2sApp(ogi), b2sApp(zfo), amt)
+	e.oracleSwapEndpointsAt(line, "probe", ogi, zfo, amt, paid, got, sp0, p1.GetCurrentSqrtPrice().BigInt(), liq0, ahead)
+}
+
+func (e *clEngine) oracleSwapEndpointsAt(line, class string, ogi, zfo bool, amt, paid, got, sp0, sp1, liq0 *big.Int, ahead []tickNet) {
+	o := e.o
+	kind := fmt.Sprintf("ogi=%s:zfo=%s", b2sApp(ogi), b2sApp(zfo))
+	spfClass := "spf>0"
+	if e.spf.IsZero() {
+		spfClass = "spf=0"
+	}
+	// (an exact-out swap can deliver ONE unit less than requested away from the limit: the loop stops with up to 10^-18 of the
+	// request left and the delivered amount is truncated; counted, not a partial fill)
+	partial := ogi && paid.Cmp(amt) < 0 || !ogi && new(big.Int).Add(got, big.NewInt(1)).Cmp(amt) < 0
+	if !ogi && got.Cmp(amt) < 0 && !partial {
+		o.Count("swap.exact-out-one-unit-short")
+	}
+	atLimit := sp1.Cmp(cltypes.MinSqrtPriceBigDec.BigInt()) == 0 || sp1.Cmp(cltypes.MaxSqrtPriceBigDec.BigInt()) == 0
+	fill := "full"
+	pre := "swap."
+	if class == "probe" {
+		pre = "probe."
+	}
+	if partial {
+		fill = "partial"
+		o.Count(pre + "partial-fill")
+		o.Count(pre + "partial-fill:" + kind + ":" + spfClass)
+	}
+	if atLimit {
+		o.Count(pre + "stopped-at-price-limit")
+		o.Count(pre + "stopped-at-price-limit:" + kind)
+	}
+	if partial && !atLimit {
+		// a swap consumes its whole specified amount unless it reaches the price limit
+		o.Fail("swap:partial-fill-away-from-price-limit:"+kind, fmt.Sprintf("%s paid %s got %s end sqrt price %s | %s", line, paid, got, sp1, e.replay()))
+	}
+	if zfo && sp1.Cmp(sp0) > 0 || !zfo && sp1.Cmp(sp0) < 0 {
+		o.Fail("swap:price-moved-against-direction:"+kind, fmt.Sprintf("%s sqrt price %s -> %s | %s", line, sp0, sp1, e.replay()))
+		return
+	}
+	// exact walk sp0 -> sp1
+	L := new(big.Rat).SetFrac(liq0, p18r)
+	cur := new(big.Rat).SetFrac(sp0, p36r)
+	end := new(big.Rat).SetFrac(sp1, p36r)
+	exIn, exOut := new(big.Rat), new(big.Rat)
+	seg := func(to *big.Rat) {
+		lo, hi := cur, to
+		if lo.Cmp(hi) > 0 {
+			lo, hi = hi, lo
+		}
+		if lo.Cmp(hi) == 0 || L.Sign() <= 0 {
+			return
+		}
+		d0 := new(big.Rat).Sub(new(big.Rat).Inv(lo), new(big.Rat).Inv(hi))
+		d0.Mul(d0, L)
+		d1 := new(big.Rat).Sub(hi, lo)
+		d1.Mul(d1, L)
+		if zfo {
+			exIn.Add(exIn, d0)
+			exOut.Add(exOut, d1)
+		} else {
+			exIn.Add(exIn, d1)
+			exOut.Add(exOut, d0)
+		}
+	}
+	crossed, landed := 0, false
+	for _, t := range ahead {
+		tsp := new(big.Rat).SetFrac(t.sp, p36r)
+		if zfo && tsp.Cmp(end) < 0 || !zfo && tsp.Cmp(end) > 0 {
+			break
+		}
+		if t.sp.Cmp(sp1) == 0 && t.sp.Cmp(sp0) != 0 {
+			landed = true
+		}
+		seg(tsp)
+		cur = tsp
+		n := new(big.Rat).SetFrac(t.net, p18r)
+		if zfo {
+			L = new(big.Rat).Sub(L, n)
+		} else {
+			L = new(big.Rat).Add(L, n)
+		}
+		crossed++
+	}
+	seg(end)
+	o.Count(fmt.Sprintf(pre+"ticks-traversed%d", minInt(crossed, 6)))
+	if landed && class == "probe" {
+		o.Count("probe.landed-on-tick")
+	} else if landed {
+		o.Count("swap.landed-on-tick")
+		o.Count("swap.landed-on-tick:" + kind + ":" + spfClass)
+		if class == "land" {
+			o.Count("swap.landed-on-tick.directed")
+		}
+		if class != "probe" {
+			e.landedNow = true
+		}
+	}
+	charge := new(big.Rat).Quo(exIn, new(big.Rat).Sub(big.NewRat(1, 1), new(big.Rat).SetFrac(e.spf.BigInt(), p18r)))
+	detail := func() string {
+		return fmt.Sprintf("%s paid %s got %s | exact in (incl. spread charge) %s exact out %s | sqrt price %s -> %s liquidity %s ticks traversed %d spread factor %s | %s",
+			line, paid, got, charge.FloatString(6), exOut.FloatString(6), sp0, sp1, liq0, crossed, e.spf, e.replay())
+	}
+	if new(big.Rat).SetInt(paid).Cmp(charge) < 0 {
+		o.Fail("swap:charged-below-exact-curve:"+kind+":"+fill+":"+spfClass, detail())
+	}
+	if new(big.Rat).SetInt(got).Cmp(exOut) > 0 {
+		o.Fail("swap:paid-out-above-exact-curve:"+kind+":"+fill+":"+spfClass, detail())
+	}
+	o.Count(pre + "endpoints-checked:" + fill)
+	
 }
 
 func isBalanceErr(err error) bool { return err != nil && (has(err.Error(), "insufficient") || has(err.Error(), "Insufficient")) }
@@ -461,7 +800,7 @@ func (e *clEngine) oracleBookkeeping() {
 			o.Fail("book:empty-pool-has-price", where)
 		}
 	} else if active.Cmp(p.GetLiquidity().BigInt()) != 0 {
-		o.Fail("book:active-liquidity", fmt.Sprintf("%s pool %s positions %s", where, p.GetLiquidity().BigInt(), active))
+		o.Fail("book:active-liquidity", fmt.Sprintf("%s pool %s positions %s current tick %d | %s", where, p.GetLiquidity().BigInt(), active, cur, e.replay()))
 	}
 	ticks, _ := k.GetAllInitializedTicksForPool(e.ctx(), e.poolId)
 	for _, t := range ticks {
